@@ -126,11 +126,57 @@ def sweep(tier, seed):
                 probs.append('a chain of operations modified an operand')
             if probs:
                 fails.append({'input': {'shape': list(shape), 'edges': edges, 'op': 'squeeze/chain'}, 'observed': probs[:3], 'expected': 'well-formed results, operands untouched'})
+            # exact operands (all errors zero) and a right operand WITHOUT bins: the result is still the left operand's dataset (bins, name, what)
+            from valjean.eponine.dataset import Dataset
+            for zero_left, zero_right, right_bins in itertools.product((False, True), (False, True), (True, False)):
+                a2 = _mk(shape, v1, [0.0] * size if zero_left else e1, edges, 'left', 'wl')
+                b2 = _mk(shape, v2, [0.0] * size if zero_right else e2, edges, 'right', 'wr')
+                if not right_bins:
+                    b2 = Dataset(b2.value.copy(), b2.error.copy(), name='right', what='wr')
+                for sym, f in ops.items():
+                    n += 1
+                    sa, sb = _snap(a2), _snap(b2)
+                    try:
+                        r = f(a2, b2)
+                    except ValueError:
+                        continue          # the documented refusal of inconsistent operands
+                    probs = _wf(r, f'left {sym} right')
+                    if list(r.bins) != list(a2.bins) or any(not np.array_equal(r.bins[k], a2.bins[k]) for k in a2.bins):
+                        probs.append(f'left {sym} right: bins of the left operand not kept (result has {list(r.bins)})')
+                    if r.name != a2.name:
+                        probs.append(f'left {sym} right: the result is named {r.name!r}')
+                    if not _close(r.value, f(a2.value, b2.value)):
+                        probs.append(f'left {sym} right: value')
+                    if _snap(a2) != sa or _snap(b2) != sb:
+                        probs.append(f'left {sym} right: an operand was modified')
+                    if probs:
+                        fails.append({'input': {'shape': list(shape), 'edges': edges, 'op': f'dataset {sym} dataset', 'left_errors_all_zero': zero_left,
+                                                'right_errors_all_zero': zero_right, 'right_operand_has_bins': right_bins}, 'observed': probs[:3], 'expected': 'C08 oracle'})
+            # chains of masks: masking a masked dataset leaves the first one as it was
+            n += 1
+            a3 = _mk(shape, v1, e1, edges, 'a', 'wa')
+            mA = np.zeros(shape, dtype=bool)
+            mA.flat[0] = True
+            mB = np.zeros(shape, dtype=bool)
+            mB.flat[-1] = True
+            sa = _snap(a3)
+            m1 = a3.mask(mA)
+            snap1 = (np.ma.getmaskarray(m1.value).tobytes(), np.ma.getmaskarray(m1.error).tobytes(), np.ma.getdata(m1.value).tobytes())
+            m2 = m1.mask(mB)
+            probs = _wf(m1, 'mask') + _wf(m2, 'mask of a mask')
+            if (np.ma.getmaskarray(m1.value).tobytes(), np.ma.getmaskarray(m1.error).tobytes(), np.ma.getdata(m1.value).tobytes()) != snap1:
+                probs.append('masking a masked dataset changed the mask of the first one (operand modified)')
+            if np.ma.getmaskarray(m2.value).tolist() != (mA | mB).tolist() and size > 1:
+                probs.append(f'mask of a mask: cells masked {np.ma.getmaskarray(m2.value).tolist()}, expected the union {(mA | mB).tolist()}')
+            if _snap(a3) != sa:
+                probs.append('mask modified the original')
+            if probs:
+                fails.append({'input': {'shape': list(shape), 'edges': edges, 'op': 'ds.mask(A).mask(B)'}, 'observed': probs[:3], 'expected': 'operands are never modified; masks accumulate'})
         if len(fails) >= 10:
             break
     return {'name': 'dataset-arithmetic-native', 'evaluations': n, 'distinct': n, 'failures': fails[:10], 'exhaustive': False,
             'bound': f'shapes {shapes}, bins as edges and centres, finite values of either sign; dataset o dataset, dataset o number in {consts}, dataset o array for + - * /; '
-                     'copy independence (writes into the copy incl. its bins), squeeze, one chain; relative tolerance 1e-12 on the error formulas',
+                     'copy independence (writes into the copy incl. its bins), squeeze, one chain; exact operands (all errors zero) on either side x right operand with / without bins; a mask of a mask; relative tolerance 1e-12 on the error formulas',
             'samples': [{'shape': [2, 2], 'edges': True, 'op': 'dataset * -1'}]}
 
 
